@@ -63,7 +63,13 @@ class PfWorld(World):
             # 3D: the closed-form spectral decomposition has its own repeated-eigenvalue cases
             p.update(dim=3, material="iso", planeStress=False)
             mesh = ["hexa8_a", "tetra4_a", "prism6_a"][int(rng.integers(3))]
+        if p.get("dim", 2) == 2 and rng.random() < 0.1:
+            # two main-dimension groups (TRI3 + QUAD4) in one mesh: the history field lives per element group
+            mesh = ["mixed_a", "mixed_b"][int(rng.integers(2))]
         cfg = {"params": p, "mesh": mesh, "nops": int(rng.integers(8, 25)), "faults": bool(faults), "zero_history": bool(rng.random() < 0.12)}
+        # a script that reads Result('psiP') before every Save_Iter: the trial driving energy it reports is then exactly what
+        # the save commits, so the irreversibility clause can be followed through the public API, element group by group
+        cfg["read_before_save"] = bool(mesh.startswith("mixed") or rng.random() < 0.3)
         if rng.random() < 0.2:
             # a Dirichlet condition on the damage field (an initial crack d = 1, a protected zone d = 0, a partly damaged
             # inclusion) on one or two nodes of a third boundary entity: a constraint of the damage problem, which every
@@ -194,6 +200,9 @@ class PfWorld(World):
             # engine keeps deciding
             self.ctx.probe("history_field_unobservable")
             return np.zeros(0)
+        if isinstance(H, dict):
+            # one array per element group: the clause is pointwise, the groups are laid end to end
+            return np.concatenate([np.asarray(H[k], dtype=float).ravel() for k in sorted(H, key=str)]) if H else np.zeros(0)
         return np.array(H)
 
     def _check_splits(self, what):
@@ -203,10 +212,16 @@ class PfWorld(World):
 
         with ctx.sut():
             u = sim.displacement
-            g = sim.mesh.groupElem
-            eps = sim._Calc_Epsilon_e_pg(u, g, MatrixType.mass)
+            groups = list(sim.mesh.Get_list_groupElem(sim.mesh.dim))
         if not np.all(np.isfinite(np.asarray(u))):
             return  # reported by the irreversibility / zero-load checks
+        for g in groups:
+            with ctx.sut():
+                eps = sim._Calc_Epsilon_e_pg(u, g, MatrixType.mass)
+            self._check_splits_at(what, eps)
+
+    def _check_splits_at(self, what, eps):
+        sim, ctx, model = self.sim, self.ctx, self.model
         try:
             with ctx.sut():
                 sP, sM = model.Calc_Sigma_e_pg(eps)
@@ -381,6 +396,13 @@ class PfWorld(World):
         if name == "save_iter":
             if not self.solved:
                 return "skip"
+            e_read = None
+            if self.cfg.get("read_before_save") and self.p["solver"] == "History":
+                try:
+                    with ctx.sut():
+                        e_read = np.array(sim.Result("psiP", nodeValues=False), dtype=float).ravel()
+                except SutError as ex:
+                    raise Violation("result-raises-after-save", f"Result('psiP') before Save_Iter raised {ex}", ex.site)
             with ctx.sut():
                 sim.Save_Iter()
                 d = sim.Get_results(-1)["damage"].copy()
@@ -401,6 +423,16 @@ class PfWorld(World):
                         i = int(np.argmax(d0 - d))
                         raise Violation("damage-decreased", f"{what}: saved damage at node {i} went from {d0[i]:.6f} to {d[i]:.6f}")
                     ctx.checked()
+            if e_read is not None:
+                e0 = getattr(self, "base_e", None)
+                if e0 is not None and e0.shape == e_read.shape and np.all(np.isfinite(e_read)):
+                    dec = (e0 - e_read).max()
+                    if dec > 1e-12 * max(refs.maxabs(e0), 1e-300):
+                        i = int(np.argmax(e0 - e_read))
+                        raise Violation("history-field-decreased", f"{what}: the driving energy of element {i} (Result 'psiP' read before each save: what the save commits, mean over the integration points of the element) went from {e0[i]:.6e} to {e_read[i]:.6e} between two saved steps [{self.cfg['mesh']}]")
+                    ctx.checked()
+                    ctx.probe("driving_energy_checked_through_the_public_result")
+                self.base_e = e_read if np.all(np.isfinite(e_read)) else None
             if self.zero:
                 self._check_zero(what, d)
             self.saved.append({"d": d, "H": H})
@@ -411,12 +443,16 @@ class PfWorld(World):
         if name == "set_iter":
             if op["i"] >= len(self.saved):
                 return "skip"
-            with ctx.sut():
-                sim.Set_Iter(op["i"], resetAll=op["resetAll"])
+            try:
+                with ctx.sut():
+                    sim.Set_Iter(op["i"], resetAll=op["resetAll"])
+            except SutError as e:
+                raise Violation("set-iter-raises", f"Set_Iter({op['i']}, resetAll={op['resetAll']}) raised {e} [{self.cfg['mesh']}, {self.p['solver']}]", e.site)
             s = self.saved[op["i"]]
             # the loading history continues from iteration i: what was saved there is the new baseline
             self.base = (s["d"], np.minimum(s["H"], self._H()) if s["H"].shape == self._H().shape else self._H())
             self._apply_load()
+            self.base_e = None  # (listed finding pf-history-not-restored: the tracking restarts at the next saved step)
             ctx.probe("rollback")
             return "ok"
 
